@@ -141,9 +141,20 @@ def tool_case(src, mexe, idx, seed, tier):
     if not (fs0.incompat & INCOMPAT_META_BG) or True:
         menu.append("grow")
         menu.append("shrink")
-    for _ in range(r.randint(0, 3)):
-        m = r.choice(menu)
-        if m == "grow":
+        menu.append("nudge")
+    plan = [r.choice(menu) for _ in range(r.randint(0, 3))]
+    if idx % 3 == 1:
+        plan.append("nudge")
+    for m in plan:
+        if m == "nudge":
+            # a resize that keeps the number of groups: the backups must still be brought up to date
+            fsn = Fs(img)
+            last = (fsn.blocks_count - fsn.first_data_block) % fsn.blocks_per_group or fsn.blocks_per_group
+            room = last - (2 + fsn.itb_per_group + 1 + fsn.desc_blocks + fsn.reserved_gdt + 60)
+            if room > 4:
+                step([T("e2fsck/e2fsck"), "-fy", img])
+                step([T("resize/resize2fs"), img, str(fsn.blocks_count - r.randint(1, min(room, 40)))])
+        elif m == "grow":
             newk = int(size[:-1]) * 1024 + r.choice([3000, 8192, 20000])
             with open(img, "r+b") as f:
                 f.truncate(newk * 1024)
@@ -174,8 +185,8 @@ def tool_case(src, mexe, idx, seed, tier):
         with open(tmp, "r+b") as f:
             f.seek(1024)
             f.write(b"\0" * 1024)
-            for i in range(fs.desc_blocks if not fs.incompat & INCOMPAT_META_BG else fs.first_meta_bg):
-                f.seek((fs.first_data_block + 1 + i) * fs.bs)
+            for i in range(fs.desc_blocks):        # every primary descriptor block, meta_bg ones included
+                f.seek(fs.desc_block_loc(i) * fs.bs)
                 f.write(b"\0" * fs.bs)
         rc, out = e2v.sh([T("e2fsck/e2fsck"), "-fy", "-b", str(sblk), "-B", str(fs.bs), tmp], env=env, timeout=300)
         tries += 1
